@@ -50,6 +50,15 @@ CHECKS.update({
                      "and all (pairs of) default tokens of the look-alike universe; on the real code every case must call the constructor "
                      "exactly once, bind present fields to loaded values, and leave absent fields typed-equal (identical for singletons, "
                      "fresh for factories) to the declared default, for plain / dataclass / attrs / NamedTuple classes."),
+    "C11": dict(technique="TLA+ spec Retort.tla: refinement Cached => HistoryFree model-checked by TLC (typed key equality; Python-== keys as spec "
+                          "mutant); every TLC-enumerated history replayed by the history walker against fresh equal retorts",
+                category="model_checking", design_ref="6/C11",
+                note="trusts: the response abstraction (behaviour vector on 18 probe data + one dump); pool of 18 confusable requests x 3 "
+                     "constructions; histories of length <= 3; converter histories are covered by C13's alternating-recipe check",
+                text="TLC proves that the cached facade machine refines the history-free one when cache keys compare typed, shows with a spec "
+                     "mutant that Python-== keys do not, and enumerates all histories of facade calls of length 2 and 3 over the pool; the "
+                     "walker performs each history on one real retort (and its replace()/extend() offspring) and every response, also when "
+                     "asked again later, must equal that of a freshly constructed equal retort with an empty normalisation cache."),
     "C13": dict(technique="TLA+ spec Link.tla (documented linking search, symbolic plan per destination field) model-checked by TLC; every "
                           "enumerated program built with dataclasses + impl_converter + public link providers and run on tagged values",
                 category="model_checking", design_ref="6/C13",
